@@ -232,6 +232,72 @@ VARIANTS = [
      "new": "        buf = None\n        if self._empty_is_none:\n            if val is None:\n                buf = b\"\"\n"
             "        if buf is None:\n            inner_writer = BufferWriter(writer.endianness)\n"
             "            inner_writer.write(self._spec, val, ctx=ctx)\n            buf = inner_writer.buffer\n"},
+    # ------------------------------------------------------------------ R2 (iv) silent truncation
+    {"name": "R2 Str cuts over-long input to the prefix's capacity instead of rejecting it", "file": SER, "expect": "C08.R2",
+     "old": "                instance += b\"\\x00\"\n        writer.write(self._bytes_tmpl, instance, ctx=ctx)\n",
+     "new": "                instance += b\"\\x00\"\n        writer.write(self._bytes_tmpl, instance[:255], ctx=ctx)\n"},
+    {"name": "R2 StrFixed measures characters, then pads through struct 's' (cuts the encoded bytes)", "file": SER,
+     "expect": "C08.R2",
+     "old": "        if isinstance(instance, str):\n            instance = instance.encode(\"utf8\")\n"
+            "        if len(instance) > self._length:\n            raise ValueError(f\"{instance!r} can't fit in {self._length}\")\n"
+            "        # Pad with nulls\n        instance += b\"\\x00\" * (self._length - len(instance))\n",
+     "new": "        if len(instance) > self._length:\n            raise ValueError(f\"{instance!r} can't fit in {self._length}\")\n"
+            "        raw = instance.encode(\"utf8\") if isinstance(instance, str) else instance\n"
+            "        instance = struct.pack(\"%ds\" % self._length, raw)\n"},
+    {"name": "P R2 StrFixed relies on its BytesFixed child for the size check", "file": SER, "expect": "silent",
+     "old": "        if len(instance) > self._length:\n            raise ValueError(f\"{instance!r} can't fit in {self._length}\")\n"
+            "        # Pad with nulls\n", "new": "        # Pad with nulls (an over-long value is refused by the fixed-size child spec)\n"},
+    {"name": "P R2 StrFixed friendly check moved before the encode, manual padding kept", "file": SER, "expect": "silent",
+     "old": "        if isinstance(instance, str):\n            instance = instance.encode(\"utf8\")\n"
+            "        if len(instance) > self._length:\n            raise ValueError(f\"{instance!r} can't fit in {self._length}\")\n",
+     "new": "        if len(instance) > self._length:\n            raise ValueError(f\"{instance!r} can't fit in {self._length}\")\n"
+            "        if isinstance(instance, str):\n            instance = instance.encode(\"utf8\")\n"},
+    {"name": "P R2 BytesFixed slices after its exact-length check", "file": SER, "expect": "silent",
+     "old": "            raise ValueError(f\"length of {instance!r} is not {self._size}\")\n        writer.write_bytes(instance)\n",
+     "new": "            raise ValueError(f\"length of {instance!r} is not {self._size}\")\n"
+            "        writer.write_bytes(instance[:self._size])\n"},
+    {"name": "P R2 BitField per-member work moved into a helper taking the member value", "file": HELPERS, "expect": "silent",
+     "old": "            if self.shift:\n                if val > mask:\n"
+            "                    raise ValueError(\"%r larger than max %r\" % (val, mask))\n                packed |= val << cur_bit\n",
+     "new": "            if self.shift:\n                packed |= self._shifted(vals[name], mask, cur_bit)\n",
+     "edits": [
+         {"file": HELPERS, "old": "            if self.shift:\n                if val > mask:\n"
+          "                    raise ValueError(\"%r larger than max %r\" % (val, mask))\n                packed |= val << cur_bit\n",
+          "new": "            if self.shift:\n                packed |= self._shifted(vals[name], mask, cur_bit)\n"},
+         {"file": HELPERS, "old": "    def unpack(self, packed):\n",
+          "new": "    def _shifted(self, member, limit, at):\n        if member > limit:\n"
+                 "            raise ValueError(\"%r larger than max %r\" % (member, limit))\n        return member << at\n\n"
+                 "    def unpack(self, packed):\n"}]},
+    {"name": "P R2 Collection count checks in a helper with guard clauses", "file": SER, "expect": "silent",
+     "edits": [
+         {"file": SER, "old": "    def serialize(self, entries, writer: BufferWriter, ctx):\n        if self._len_spec:\n"
+          "            max_len = getattr(self._len_spec, 'max_val', None)\n",
+          "new": "    def _refuse_bad_count(self, items):\n        if self._len_spec:\n"
+                 "            max_len = getattr(self._len_spec, 'max_val', None)\n"},
+         {"file": SER, "old": "            if max_len is not None and max_len < len(entries):\n"
+          "                raise ValueError(f\"{len(entries)} is wider than {max_len}\")\n        elif self._length:\n"
+          "            if len(entries) != self._length:\n"
+          "                raise ValueError(f\"Need exactly {self._length} entries, got {len(entries)}\")\n",
+          "new": "            if max_len is not None and max_len < len(items):\n"
+                 "                raise ValueError(f\"{len(items)} is wider than {max_len}\")\n            return\n"
+                 "        if self._length and len(items) != self._length:\n"
+                 "            raise ValueError(f\"Need exactly {self._length} entries, got {len(items)}\")\n\n"
+                 "    def serialize(self, entries, writer: BufferWriter, ctx):\n        self._refuse_bad_count(entries)\n"}]},
+    # ------------------------------------------------------------------ R8
+    {"name": "R8 ByteArray.deserialize caps the length it just read", "file": SER, "expect": "C08.R8",
+     "old": "        bytes_len = reader.read(self._len_spec, ctx=ctx)\n",
+     "new": "        bytes_len = reader.read(self._len_spec, ctx=ctx)\n        if bytes_len > 4096:\n            bytes_len = 4096\n"},
+    {"name": "R8 FixedPoint.deserialize maps tiny magnitudes to zero", "file": SER, "expect": "C08.R8",
+     "old": "        fixed_val = float(self._ser_spec.deserialize(reader, ctx))\n",
+     "new": "        fixed_val = float(self._ser_spec.deserialize(reader, ctx))\n"
+            "        fixed_val = fixed_val if fixed_val > 2.0 else 0.0\n"},
+    {"name": "R8 TupleCoord.deserialize zeroes out-of-range components", "file": SER, "expect": "C08.R8",
+     "old": "        val = cls.COORD_CLS(*vals)\n        if cls.need_pod(reader):\n            return val.data()\n",
+     "new": "        val = cls.COORD_CLS(*[0.0 if abs(c) > 1e30 else c for c in vals])\n"
+            "        if cls.need_pod(reader):\n            return val.data()\n"},
+    {"name": "P R8 TupleCoord.deserialize identity comprehension and mode-dependent result", "file": SER, "expect": "silent",
+     "old": "        val = cls.COORD_CLS(*vals)\n        if cls.need_pod(reader):\n            return val.data()\n        return val\n",
+     "new": "        val = cls.COORD_CLS(*[c for c in vals])\n        return val.data() if cls.need_pod(reader) else val\n"},
     # ------------------------------------------------------------------ documented limits (value level)
     {"name": "X Str strips NULs on both ends (same wire shape, different value)", "file": SER, "expect": "miss",
      "old": "                instance += b\"\\x00\"\n        writer.write(self._bytes_tmpl, instance, ctx=ctx)\n\n"
